@@ -39,11 +39,17 @@ type agg struct {
 	infra         []string
 	knownHits     map[string]int64
 	caseClasses   map[string]bool
+	// instances of recorded known findings do not end the exploration: they are counted, a few
+	// per class are kept for the report
+	unknown   int
+	knownSeen map[string]int64
+	knownKept map[string]int
 }
 
 func newAgg() *agg {
 	return &agg{sigs: map[string]bool{}, inconclusive: map[string]int64{}, fs: map[string]int64{}, faults: map[string]int64{},
-		probes: map[string]int64{}, knownHits: map[string]int64{}, caseClasses: map[string]bool{}}
+		probes: map[string]int64{}, knownHits: map[string]int64{}, caseClasses: map[string]bool{},
+		knownSeen: map[string]int64{}, knownKept: map[string]int{}}
 }
 
 func (a *agg) add(o *Outcome) {
@@ -136,7 +142,7 @@ func driverMain(args []string) {
 				}
 				runWorker(self, *prop, *tier, *seed, from, *batch, deadline, a)
 				a.mu.Lock()
-				stop := len(a.viols) >= 40 || len(a.infra) > 5
+				stop := a.unknown >= 40 || len(a.infra) > 5
 				a.mu.Unlock()
 				if stop {
 					return
@@ -206,6 +212,9 @@ func driverMain(args []string) {
 					reportedKnown[known] = true
 					lines = append(lines, fmt.Sprintf("KNOWN-FINDING: property=%s %s (replay=%s)", *prop, known, final))
 					a.knownHits[known] += int64(len(rfs))
+					if a.knownSeen[known] > a.knownHits[known] {
+						a.knownHits[known] = a.knownSeen[known]
+					}
 				} else {
 					os.Remove(final)
 				}
@@ -298,8 +307,18 @@ func runWorker(self, prop, tier string, seed uint64, from, n int, deadline time.
 			i := strings.IndexByte(rest, ' ')
 			var rf ReplayFile
 			if err := json.Unmarshal([]byte(rest[i+1:]), &rf); err == nil {
+				known := matchKnown(rf.Violation, rf.Plan)
 				a.mu.Lock()
-				a.viols = append(a.viols, &rf)
+				if known != "" {
+					a.knownSeen[known]++
+					if cl := rf.Violation.Class(); a.knownKept[cl] < 6 {
+						a.knownKept[cl]++
+						a.viols = append(a.viols, &rf)
+					}
+				} else {
+					a.unknown++
+					a.viols = append(a.viols, &rf)
+				}
 				a.mu.Unlock()
 			}
 		case line == "WORKER-END":
